@@ -6,7 +6,7 @@ C02 objective and the C03 result).  Helper lemmas: GlotaranProofs/Lemmas/C14*.le
 Not theorems (DESIGN §8): convergence of `least_squares` from perturbed starts (empirical, harness) and
 the content of numpy's generator (a parameter `Rng` here).
 -/
-import GlotaranProofs.Lemmas.C14Linked
+import GlotaranProofs.Lemmas.C14Recover
 namespace Glotaran.C14
 open Glotaran.LinAlg Glotaran.C02
 
@@ -132,6 +132,16 @@ example : FullColRank [[1, 0], [0, 1], [1, 1]] 2 := by
 example : solveLS .nnls (mscale 2 [[1, 2], [3, 4], [5, 7]]) (mulVec [[1, 2], [3, 4], [5, 7]] [0, 10])
     = some ([0, 5], [0, 0, 0]) := by decide +kernel
 
+/-- **A left inverse certifies the rank hypothesis**: if `L · B` is the identity then `B` has full column
+    rank (so the hypothesis of the clp-recovery theorems can be checked by exhibiting `L`, e.g.
+    `(BᵀB)⁻¹Bᵀ`; the examples below do exactly that). -/
+theorem full_col_rank_certificate (B L : Mat) (n : Nat) (hB : ∀ r ∈ B, r.length = n)
+    (h : matMul L B n = identityRows n) : FullColRank B n :=
+  fullColRank_of_leftInverse B L n hB h
+
+example : matMul [[0, 0, 1, 0, 0], [0, 0, 0, 1, 0]] [[4, 0], [3, 0], [1, 0], [0, 1], [1, 1]] 2 = identityRows 2 := by
+  decide +kernel
+
 /-! ### one simulated dataset in the fit -/
 
 /-- **A dataset whose data were simulated (clp-driven, noise-free) from the same megacomplex outputs
@@ -198,21 +208,38 @@ example : noiseless exampleSim.inp = .ok [[21, 42], [43, 86], [75, 150]] ∧
 /-! ### full models -/
 
 /-- **A dataset simulated with `simulate_full_model`** (index-independent model matrix, global clp labels
-    unique and containing the model clp labels, no weight) **contributes a zero residual block**: the
-    flattened data are the Kronecker matrix `G ⊗ M` the fit uses applied to the label pairing (1 where
-    global and model clp label coincide, 0 elsewhere), for VP and NNLS alike. -/
+    unique and containing the model clp labels; unweighted or weighted — a weight has one row per
+    model-axis point) **contributes a zero residual block**: the flattened (weighted) data are the
+    (row-weighted) Kronecker matrix `G ⊗ M` the fit uses applied to the label pairing (1 where global and
+    model clp label coincide, 0 elsewhere), for VP and NNLS alike. -/
 theorem full_model_dataset_zero_at_truth (sd : SimDataset) (lm gm : LMat) (m g : Mat)
     (ok : SimFullOK sd lm gm m g) (data : Mat) (hsim : noiseless sd.inp = .ok data) (sv : Solver)
     (res pens : Vec) (h : unlinkedDataset {} sv (sd.toDataset data) = some (res, pens)) :
     (∀ x ∈ res, x = 0) ∧ pens = [] :=
   unlinkedDataset_full sd lm gm m g ok data hsim sv res pens h
 
-/-- the data are in the range of the Kronecker matrix, with the pairing vector as coefficients -/
+/-- the (weighted) data are in the range of the (row-weighted) Kronecker matrix, with the pairing vector
+    as coefficients, and every row of that matrix has one entry per (global label, model label) pair -/
 theorem full_model_data_in_range (sd : SimDataset) (lm gm : LMat) (m g : Mat)
     (ok : SimFullOK sd lm gm m g) (data : Mat) (hsim : noiseless sd.inp = .ok data) (full : Mat) (flat : Vec)
     (h : fullModelProblem (sd.toDataset data) = some (full, flat)) :
-    flat = mulVec full (pairing gm.labels lm.labels) :=
-  (fullModel_consistent sd lm gm m g ok data hsim full flat h).1
+    flat = mulVec full (pairing gm.labels lm.labels) ∧
+    ∀ r ∈ full, r.length = gm.labels.length * lm.labels.length :=
+  fullModel_consistent sd lm gm m g ok data hsim full flat h
+
+/-- **The clp table a full-model fit reports at the truth is the generating table, by label**: the
+    result carries the model clp labels and — when the (row-weighted) Kronecker matrix `G ⊗ M` handed to
+    the solver has full column rank — one row per global clp label with 1 in the column of the model clp
+    label of the same name and 0 elsewhere (`simulate_full_model` pairs each model clp with the global
+    clp of the same label).  VP and NNLS, weighted or not. -/
+theorem full_model_clps_at_truth (sd : SimDataset) (lm gm : LMat) (m g : Mat)
+    (ok : SimFullOK sd lm gm m g) (data : Mat) (hsim : noiseless sd.inp = .ok data) (sv : Solver)
+    (r : C03.DsResult) (h : C03.unlinkedResult {} sv (sd.toDataset data) = some r) :
+    r.clpLabels = lm.labels ∧
+    ∀ full flat, fullModelProblem (sd.toDataset data) = some (full, flat) →
+      FullColRank full (gm.labels.length * lm.labels.length) →
+      r.clps = gm.labels.map (fun a => lm.labels.map (fun l => if a = l then (1 : Rat) else 0)) :=
+  unlinkedResult_full sd lm gm m g ok data hsim sv r h
 
 /-- the worked full-model example: model labels (s1, s2), global labels (s2, gx, s1) -/
 def exampleFull : SimDataset :=
@@ -223,7 +250,7 @@ def exampleFull : SimDataset :=
 example : SimFullOK exampleFull ⟨["s1", "s2"], .d2 [[2, 4], [6, 8], [10, 14]]⟩ ⟨["s2", "gx", "s1"], .d2 [[1, 5, 2], [3, 1, 4], [0, 2, 1]]⟩
     [[2, 4], [6, 8], [10, 14]] [[1, 5, 2], [3, 1, 4], [0, 2, 1]] where
   hasGlobal := by simp [exampleFull]
-  noWeight := rfl
+  weightShape := by intro w hw; cases hw
   matrix := by rfl
   gmatrix := by rfl
   body := rfl
@@ -242,7 +269,108 @@ example : noiseless exampleFull.inp = .ok [[8, 20, 2], [20, 48, 6], [34, 82, 10]
     pairing ["s2", "gx", "s1"] ["s1", "s2"] = [0, 1, 0, 0, 1, 0] := by
   decide +kernel
 
+/-- **For an unweighted full model the rank hypothesis follows from the factors**: if the global matrix
+    `G` and the model matrix `M` both have full column rank, so has `G ⊗ M`, and the reported clp table is
+    the label pairing. -/
+theorem full_model_clps_from_factor_ranks (sd : SimDataset) (lm gm : LMat) (m g : Mat)
+    (ok : SimFullOK sd lm gm m g) (hw : sd.weight = none) (data : Mat) (hsim : noiseless sd.inp = .ok data)
+    (sv : Solver) (r : C03.DsResult) (h : C03.unlinkedResult {} sv (sd.toDataset data) = some r)
+    (rG : FullColRank g gm.labels.length) (rM : FullColRank m lm.labels.length) :
+    FullColRank (g.flatMap (fun grow => kronRow grow m)) (gm.labels.length * lm.labels.length) ∧
+    r.clps = gm.labels.map (fun a => lm.labels.map (fun l => if a = l then (1 : Rat) else 0)) := by
+  have hk := kron_fullColRank g m _ _ ok.gWidth ok.mWidth rG rM
+  refine ⟨hk, ?_⟩
+  have hm1 : datasetMatrix (sd.toDataset data).mcs = some lm := ok.matrix
+  have hm2 : datasetMatrix (sd.toDataset data).gmcs = some gm := ok.gmatrix
+  have hwt : (sd.toDataset data).weight = none := hw
+  have hfm : fullModelProblem (sd.toDataset data) = some (g.flatMap (fun grow => kronRow grow m),
+      (List.range (sd.toDataset data).nGlobal).flatMap (fun i => col (sd.toDataset data).weightedData i)) := by
+    unfold fullModelProblem
+    simp only [hm1, hm2, ok.body, ok.gbody, hwt]
+  exact (unlinkedResult_full sd lm gm m g ok data hsim sv r h).2 _ _ hfm hk
+
+example : FullColRank [[1, 5, 2], [3, 1, 4], [0, 2, 1]] 3 ∧ FullColRank [[2, 4], [6, 8], [10, 14]] 2 :=
+  ⟨fullColRank_of_cert _ [[7 / 10, 1 / 10, -9 / 5], [3 / 10, -1 / 10, -1 / 5], [-3 / 5, 1 / 5, 7 / 5]] 3 (by decide +kernel),
+   fullColRank_of_cert _ [[-1, 1 / 2, 0], [3 / 4, -1 / 4, 0]] 2 (by decide +kernel)⟩
+
+example : (C03.unlinkedResult {} .vp (exampleFull.toDataset [[8, 20, 2], [20, 48, 6], [34, 82, 10]])).map (·.clps) =
+    some [[0, 1], [0, 0], [1, 0]] := by decide +kernel
+
+/-- the same full model with a weight: still a zero residual block -/
+def exampleFullW : SimDataset := { exampleFull with weight := some [[1, 2, 1], [2, 1, 1 / 2], [1, 1, 4]] }
+
+example : SimFullOK exampleFullW ⟨["s1", "s2"], .d2 [[2, 4], [6, 8], [10, 14]]⟩ ⟨["s2", "gx", "s1"], .d2 [[1, 5, 2], [3, 1, 4], [0, 2, 1]]⟩
+    [[2, 4], [6, 8], [10, 14]] [[1, 5, 2], [3, 1, 4], [0, 2, 1]] where
+  hasGlobal := by simp [exampleFullW, exampleFull]
+  weightShape := by
+    intro w hw
+    simp only [exampleFullW, Option.some.injEq] at hw
+    subst hw; rfl
+  matrix := by rfl
+  gmatrix := by rfl
+  body := rfl
+  gbody := rfl
+  axis := rfl
+  gRows := rfl
+  gWidth := by decide
+  mRows := rfl
+  mWidth := by decide
+  glabels := by decide
+  covered := by decide
+
+example : unlinkedDataset {} .vp (exampleFullW.toDataset [[8, 20, 2], [20, 48, 6], [34, 82, 10]]) =
+    some ([0, 0, 0, 0, 0, 0, 0, 0, 0], []) := by
+  decide +kernel
+
+/-- a small weighted full model (model label s1, global labels gx, s1) for the clp clause: the weighted
+    Kronecker matrix has full column rank (left-inverse certificate) and the reported clp table is the
+    label pairing: row `gx` ↦ 0, row `s1` ↦ 1 -/
+def exampleFullS : SimDataset :=
+  { label := "d1", globalAxis := [5, 6], weight := some [[1, 2], [3, 1]], scale := none,
+    inp := { nModel := 2, nGlobal := 2, mcs := [⟨⟨["s1"], .d2 [[1], [2]]⟩, none⟩],
+             gmcs := [⟨⟨["gx", "s1"], .d2 [[1, 0], [0, 1]]⟩, none⟩], clp := none, noise := none } }
+
+example : SimFullOK exampleFullS ⟨["s1"], .d2 [[1], [2]]⟩ ⟨["gx", "s1"], .d2 [[1, 0], [0, 1]]⟩ [[1], [2]] [[1, 0], [0, 1]] where
+  hasGlobal := by simp [exampleFullS]
+  weightShape := by
+    intro w hw
+    simp only [exampleFullS, Option.some.injEq] at hw
+    subst hw; rfl
+  matrix := by rfl
+  gmatrix := by rfl
+  body := rfl
+  gbody := rfl
+  axis := rfl
+  gRows := rfl
+  gWidth := by decide
+  mRows := rfl
+  mWidth := by decide
+  glabels := by decide
+  covered := by decide
+
+example : noiseless exampleFullS.inp = .ok [[0, 1], [0, 2]] ∧
+    fullModelProblem (exampleFullS.toDataset [[0, 1], [0, 2]]) = some ([[1, 0], [6, 0], [0, 2], [0, 2]], [0, 0, 2, 2]) ∧
+    (C03.unlinkedResult {} .vp (exampleFullS.toDataset [[0, 1], [0, 2]])).map (fun r => (r.clpLabels, r.clps)) =
+      some (["s1"], [[0], [1]]) := by
+  decide +kernel
+
+example : FullColRank [[1, 0], [6, 0], [0, 2], [0, 2]] (["gx", "s1"].length * ["s1"].length) :=
+  fullColRank_of_cert _ [[1, 0, 0, 0], [0, 0, 1 / 2, 0]] 2 (by decide +kernel)
+
 /-! ### linked groups -/
+
+/-- **The output of `create_aligned_global_axes`** (`C02.alignAxes`, the definition the objective of a
+    linked group executes): one aligned axis per dataset, in dataset order, each with exactly one entry
+    per point of the dataset's own global axis.  (Proved from the model; it used to be a hypothesis of the
+    linked-group theorems.) -/
+theorem aligned_axes_shape (axes : List (List Rat)) (tol : Rat) (m : Method) (aligned : List (List Rat))
+    (h : alignAxes axes tol m = some aligned) :
+    aligned.length = axes.length ∧
+      ∀ k (h1 : k < aligned.length) (h2 : k < axes.length), aligned[k].length = axes[k].length :=
+  alignAxes_shape axes tol m aligned h
+
+example : alignAxes [[1, 3, 5], [3, 4], [6, 1]] (1 / 2) .nearest = some [[1, 3, 5], [3, 4], [6, 1]] := by
+  decide +kernel
 
 /-- **The stacked matrix of an aligned index applied to per-label coefficients is, dataset by dataset,
     the dataset's scaled matrix applied to the coefficients of its own labels**, and every stacked row has
@@ -254,8 +382,19 @@ theorem stacked_matrix_by_label (bs : List (LMat2 × Rat)) (φ : String → Rat)
     ∀ r ∈ (alignMatrices bs).m, r.length = (alignMatrices bs).labels.length :=
   mulVec_alignMatrices bs φ hnd hw
 
-/-- **A linked group of noise-free simulated (unweighted) datasets whose generating clps are
-    `dataset scale × one common value per label and aligned global point` has a zero residual part and
+/-- **Every stacked problem of a linked group at the truth is consistent, weights included**: the
+    (weighted) stacked data of aligned point `x` are the (row-weighted) stacked matrix applied to the
+    common values `F x l` of the union labels — the datasets may carry weights (dataset weights or model
+    weights; an unweighted member of a weighted group is stacked with ones, as the code does). -/
+theorem linked_problem_in_range (g : Group) (ms : List LinkedMember) (aligned : List (List Rat))
+    (F : Rat → String → Rat) (H : LinkedAtTruth g ms aligned F) (axis : List Rat) (ps : List IndexProblem)
+    (h : linkedProblems {} g = some (axis, ps)) :
+    ∀ p ∈ ps, (∀ r ∈ p.reduced.m, r.length = p.fullLabels.length) ∧
+      p.data = mulVec p.reduced.m (p.fullLabels.map (F p.x)) :=
+  linkedProblems_consistent g ms aligned F H axis ps h
+
+/-- **A linked group of noise-free simulated datasets — unweighted or weighted — whose generating clps
+    are `dataset scale × one common value per label and aligned global point` has a zero residual part and
     no penalties**: every stacked problem is consistent, the coefficient of label `l` at aligned point `v`
     being the common value `F v l` = generating clp / dataset scale of every member. -/
 theorem linked_group_zero_at_truth (g : Group) (ms : List LinkedMember) (aligned : List (List Rat))
@@ -264,10 +403,67 @@ theorem linked_group_zero_at_truth (g : Group) (ms : List LinkedMember) (aligned
     (h : linkedGroup {} g = some (res, pens)) : (∀ x ∈ res, x = 0) ∧ pens = [] :=
   linkedGroup_sim g ms aligned F H hnn res pens h
 
+/-- **The clps a linked group reports at the truth.**  The group returns one result per member; member
+    `k`'s result carries the clp labels of its own matrix, and — when the (weighted) stacked matrix has
+    full column rank at every aligned point the member is present at — one clp row per such point (in the
+    order of the aligned global axis), which is the member's generating clp row of the global index
+    aligned to that point (selected by label) divided by the member's scale; all members present at a point
+    report the same common value `F v l` for a shared label `l`. -/
+theorem linked_clps_at_truth (g : Group) (ms : List LinkedMember) (aligned : List (List Rat))
+    (F : Rat → String → Rat) (H : LinkedAtTruth g ms aligned F)
+    (hnn : g.solver = .nnls → ∀ v l, 0 ≤ F v l) (rs : List C03.DsResult)
+    (h : C03.linkedResults {} g = some rs) :
+    rs.length = ms.length ∧
+    ∀ k (hk : k < rs.length) (hk1 : k < ms.length) (hk2 : k < aligned.length),
+      rs[k].clpLabels = ms[k].lm.labels ∧
+      ((∀ axis ps, linkedProblems {} g = some (axis, ps) → ∀ p ∈ ps, p.x ∈ aligned[k] →
+          FullColRank p.reduced.m p.fullLabels.length) →
+        rs[k].clps = ((aligned.foldl sortedUnion []).filter (fun v => aligned[k].contains v)).map
+          (fun v => ms[k].lm.labels.map (F v)) ∧
+        ∀ v ∈ aligned[k], aligned[k].idxOf v < ms[k].sd.inp.nGlobal ∧
+          ms[k].lm.labels.map (F v) = vscale (1 / ms[k].sd.scale.getD 1)
+            (ms[k].lm.labels.map (fun l => (ms[k].rows.getD (aligned[k].idxOf v) []).getD (ms[k].ls.idxOf l) 0))) := by
+  obtain ⟨h1, h2⟩ := linkedResults_sim g ms aligned F H hnn rs h
+  refine ⟨h1, fun k hk hk1 hk2 => ⟨(h2 k hk hk1 hk2).1, fun hr => ⟨(h2 k hk hk1 hk2).2 hr, ?_⟩⟩⟩
+  intro v hv
+  obtain ⟨e1, e2⟩ := common_truth g ms aligned F H k hk1 hk2 v hv
+  exact ⟨e1, by rw [e2]; rfl⟩
+
+/-- **… in the member's own index order when its aligned axis is increasing**: then clp row `i` of member
+    `k`'s result is its generating clp row `i` (selected by label) divided by its scale — the statement of
+    `dataset_clps_at_truth`, now for a member of a linked group. -/
+theorem linked_clps_own_order_partial (g : Group) (ms : List LinkedMember) (aligned : List (List Rat))
+    (F : Rat → String → Rat) (H : LinkedAtTruth g ms aligned F)
+    (hnn : g.solver = .nnls → ∀ v l, 0 ≤ F v l) (rs : List C03.DsResult)
+    (h : C03.linkedResults {} g = some rs)
+    (k : Nat) (hk : k < rs.length) (hk1 : k < ms.length) (hk2 : k < aligned.length)
+    (hsorted : aligned[k].Pairwise (· < ·))
+    (hrank : ∀ axis ps, linkedProblems {} g = some (axis, ps) → ∀ p ∈ ps, p.x ∈ aligned[k] →
+      FullColRank p.reduced.m p.fullLabels.length) :
+    rs[k].clps.length = ms[k].sd.inp.nGlobal ∧
+    ∀ i (hi : i < rs[k].clps.length), rs[k].clps[i] = vscale (1 / ms[k].sd.scale.getD 1)
+      (ms[k].lm.labels.map (fun l => (ms[k].rows.getD i []).getD (ms[k].ls.idxOf l) 0)) := by
+  have h2 := ((linkedResults_sim g ms aligned F H hnn rs h).2 k hk hk1 hk2).2 hrank
+  rw [filter_aligned_sorted aligned k hk2 hsorted] at h2
+  have hnd : aligned[k].Nodup := hsorted.imp (fun h => ne_of_lt h)
+  have h3 : aligned[k].map (fun v => ms[k].lm.labels.map (F v)) =
+      aligned[k].map (fun v => truthAt ms[k].sd ms[k].lm ms[k].ls ms[k].rows (aligned[k].idxOf v)) := by
+    apply List.map_congr_left
+    intro v hv
+    exact (common_truth g ms aligned F H k hk1 hk2 v hv).2
+  rw [h3, map_idxOf_nodup aligned[k] hnd (truthAt ms[k].sd ms[k].lm ms[k].ls ms[k].rows)] at h2
+  have hlen : rs[k].clps.length = ms[k].sd.inp.nGlobal := by
+    rw [h2]; simp [H.alignedRow k hk1 hk2]
+  refine ⟨hlen, ?_⟩
+  intro i hi
+  simp only [h2, List.getElem_map, List.getElem_range]
+  rfl
+
 /-- worked example: two datasets at the same global point sharing the label `s1`; dataset scales 2 and
-    1, common values s1 ↦ 2, s2 ↦ 3, so the generating clps are (4) and (s2 = 3, s1 = 2) -/
+    1, common values s1 ↦ 2, s2 ↦ 3, so the generating clps are (4) and (s2 = 3, s1 = 2); the first
+    dataset carries a weight, the second is stacked with ones -/
 def exM1 : LinkedMember :=
-  { sd := { label := "d1", globalAxis := [1], weight := none, scale := some 2,
+  { sd := { label := "d1", globalAxis := [1], weight := some [[2], [1 / 2]], scale := some 2,
             inp := { nModel := 2, nGlobal := 1, mcs := [⟨⟨["s1"], .d2 [[1], [3]]⟩, none⟩], gmcs := [],
                      clp := some ⟨some ["s1"], [[4]]⟩, noise := none } },
     lm := ⟨["s1"], .d2 [[1], [3]]⟩, ls := ["s1"], rows := [[4]], data := [[4], [12]] }
@@ -309,7 +505,7 @@ private theorem exM2_ok : SimOK exM2.sd exM2.lm exM2.ls exM2.rows where
     subst this; decide +kernel
   scale := by decide +kernel
 
-example : LinkedAtTruth exG [exM1, exM2] [[1], [1]] exF where
+private theorem exG_atTruth : LinkedAtTruth exG [exM1, exM2] [[1], [1]] exF where
   linked := rfl
   datasets := rfl
   ok := by
@@ -322,27 +518,22 @@ example : LinkedAtTruth exG [exM1, exM2] [[1], [1]] exF where
     intro m hm
     simp only [List.mem_cons, List.not_mem_nil, or_false] at hm
     rcases hm with rfl | rfl <;> decide +kernel
-  noWeight := by
+  nonempty := by
     intro m hm
     simp only [List.mem_cons, List.not_mem_nil, or_false] at hm
-    rcases hm with rfl | rfl <;> rfl
+    rcases hm with rfl | rfl <;> decide
+  weightShape := by
+    intro m hm w hw
+    simp only [List.mem_cons, List.not_mem_nil, or_false] at hm
+    rcases hm with rfl | rfl
+    · simp only [exM1, Option.some.injEq] at hw
+      subst hw; rfl
+    · simp [exM2] at hw
   nodup := by
     intro m hm
     simp only [List.mem_cons, List.not_mem_nil, or_false] at hm
     rcases hm with rfl | rfl <;> decide
-  sliceLabels := by
-    intro m hm i hi
-    simp only [List.mem_cons, List.not_mem_nil, or_false] at hm
-    rcases hm with rfl | rfl
-    · have : i = 0 := by simp [exM1] at hi; omega
-      subst this; rfl
-    · have : i = 0 := by simp [exM2] at hi; omega
-      subst this; rfl
   alignment := by decide +kernel
-  alignedRow := by
-    intro k hk hk'
-    have : k = 0 ∨ k = 1 := by simp at hk; omega
-    rcases this with rfl | rfl <;> rfl
   common := by
     intro k hk hk' i hi l hl
     have hk2 : k = 0 ∨ k = 1 := by simp at hk; omega
@@ -358,7 +549,149 @@ example : LinkedAtTruth exG [exM1, exM2] [[1], [1]] exF where
       simp only [List.getElem_cons_succ, List.getElem_cons_zero, exM2, List.mem_cons, List.not_mem_nil, or_false] at hl
       rcases hl with rfl | rfl <;> simp only [List.getElem_cons_zero, List.getElem_cons_succ] <;> decide +kernel
 
+/-- the weighted stacked problem of the example: rows of `d1` weighted by (2, 1/2), rows of `d2` by ones -/
+private theorem exG_problems : linkedProblems {} exG = some ([1],
+    [⟨["s1", "s2"], ⟨["s1", "s2"], [[4, 0], [3, 0], [1, 0], [0, 1], [1, 1]]⟩, [8, 6, 2, 3, 5], 1⟩]) := by
+  decide +kernel
+
 example : linkedGroup {} exG = some ([0, 0, 0, 0, 0], []) := by decide +kernel
+
+/-- `linked_problem_in_range` on the example: the weighted stacked data are the weighted stacked matrix applied
+    to the common values (s1 ↦ 2, s2 ↦ 3) -/
+example : ([8, 6, 2, 3, 5] : Vec) = mulVec [[4, 0], [3, 0], [1, 0], [0, 1], [1, 1]] (["s1", "s2"].map (exF 1)) := by
+  decide +kernel
+
+/-- the rank hypothesis of `linked_clps_at_truth` holds in the example (certified by a left inverse) and
+    the reported clps are the generating clps over the scales: (4)/2 for `d1`, (s1, s2) = (2, 3) for `d2` -/
+example : ∀ axis ps, linkedProblems {} exG = some (axis, ps) → ∀ p ∈ ps, p.x ∈ [(1 : Rat)] →
+    FullColRank p.reduced.m p.fullLabels.length := by
+  intro axis ps h p hp _
+  rw [exG_problems] at h
+  simp only [Option.some.injEq, Prod.mk.injEq] at h
+  obtain ⟨_, rfl⟩ := h
+  simp only [List.mem_singleton] at hp
+  subst hp
+  exact fullColRank_of_cert _ [[0, 0, 1, 0, 0], [0, 0, 0, 1, 0]] 2 (by decide +kernel)
+
+example : (C03.linkedResults {} exG).map (fun rs => rs.map (fun r => (r.clpLabels, r.clps))) =
+    some [(["s1"], [[2]]), (["s1", "s2"], [[2, 3]])] := by decide +kernel
+
+example : ([[1], [1]] : List (List Rat))[0].Pairwise (· < ·) := by simp
+
+/-! #### the own-index statement without the sortedness hypothesis is false (recorded finding) -/
+
+/-- the *full* statement one would like: clp row `i` of every member's result is the member's generating
+    clp row `i` over its scale, for every member of a linked group at the truth — **false for the code**
+    when a member's global axis is not ascending: `EstimationProviderLinked.get_result` collects the rows in
+    the order of the aligned axis and attaches them to the member's own axis (KNOWN_FINDINGS
+    `clp-not-generating-over-scale:linked:non-ascending-global-axis`).  `linked_clps_at_truth` is the true
+    description (aligned-axis order), `linked_clps_own_order_partial` the version under the hypothesis that
+    excludes the defect. -/
+def LinkedClpsOwnOrder (ms : List LinkedMember) (rs : List C03.DsResult) : Prop :=
+  ∀ k (hk : k < ms.length) i, i < ms[k].sd.inp.nGlobal →
+    ((rs.map (·.clps)).getD k []).getD i [] = vscale (1 / ms[k].sd.scale.getD 1)
+      (ms[k].lm.labels.map (fun l => (ms[k].rows.getD i []).getD (ms[k].ls.idxOf l) 0))
+
+/-- witness: two datasets with the same model, global axes (1, 2) and (2, 1), generating clp `10 · x` -/
+def cxM1 : LinkedMember :=
+  { sd := { label := "d1", globalAxis := [1, 2], weight := none, scale := none,
+            inp := { nModel := 3, nGlobal := 2, mcs := [⟨⟨["s1"], .d2 [[1], [2], [4]]⟩, none⟩], gmcs := [],
+                     clp := some ⟨some ["s1"], [[10], [20]]⟩, noise := none } },
+    lm := ⟨["s1"], .d2 [[1], [2], [4]]⟩, ls := ["s1"], rows := [[10], [20]], data := [[10, 20], [20, 40], [40, 80]] }
+def cxM2 : LinkedMember :=
+  { sd := { label := "d2", globalAxis := [2, 1], weight := none, scale := none,
+            inp := { nModel := 3, nGlobal := 2, mcs := [⟨⟨["s1"], .d2 [[1], [2], [4]]⟩, none⟩], gmcs := [],
+                     clp := some ⟨some ["s1"], [[20], [10]]⟩, noise := none } },
+    lm := ⟨["s1"], .d2 [[1], [2], [4]]⟩, ls := ["s1"], rows := [[20], [10]], data := [[20, 10], [40, 20], [80, 40]] }
+def cxF : Rat → String → Rat := fun v _ => 10 * v
+def cxG : Group := ⟨true, .vp, 0, .nearest, [cxM1.dataset, cxM2.dataset]⟩
+
+private theorem cxM_ok (m : LinkedMember) (hm : m = cxM1 ∨ m = cxM2) : SimOK m.sd m.lm m.ls m.rows := by
+  rcases hm with rfl | rfl
+  all_goals
+    exact {
+      noGlobal := rfl, clp := rfl, matrix := by rfl, axis := rfl,
+      nrows := by
+        intro i hi
+        have : i = 0 ∨ i = 1 := by simp [cxM1, cxM2] at hi; omega
+        rcases this with rfl | rfl <;> decide +kernel
+      width := by
+        intro i hi
+        have : i = 0 ∨ i = 1 := by simp [cxM1, cxM2] at hi; omega
+        rcases this with rfl | rfl <;> decide +kernel
+      scale := by decide +kernel }
+
+private theorem cxG_atTruth : LinkedAtTruth cxG [cxM1, cxM2] [[1, 2], [2, 1]] cxF where
+  linked := rfl
+  datasets := rfl
+  ok := by
+    intro m hm
+    simp only [List.mem_cons, List.not_mem_nil, or_false] at hm
+    exact cxM_ok m hm
+  sim := by
+    intro m hm
+    simp only [List.mem_cons, List.not_mem_nil, or_false] at hm
+    rcases hm with rfl | rfl <;> decide +kernel
+  nonempty := by
+    intro m hm
+    simp only [List.mem_cons, List.not_mem_nil, or_false] at hm
+    rcases hm with rfl | rfl <;> decide
+  weightShape := by
+    intro m hm w hw
+    simp only [List.mem_cons, List.not_mem_nil, or_false] at hm
+    rcases hm with rfl | rfl <;> simp [cxM1, cxM2] at hw
+  nodup := by
+    intro m hm
+    simp only [List.mem_cons, List.not_mem_nil, or_false] at hm
+    rcases hm with rfl | rfl <;> decide
+  alignment := by decide +kernel
+  common := by
+    intro k hk hk' i hi l hl
+    have hk2 : k = 0 ∨ k = 1 := by simp at hk; omega
+    rcases hk2 with rfl | rfl
+    · have hi2 : i = 0 ∨ i = 1 := by simp at hi; omega
+      simp only [List.getElem_cons_zero, cxM1, List.mem_singleton] at hl
+      subst hl
+      rcases hi2 with rfl | rfl <;> simp only [List.getElem_cons_zero, List.getElem_cons_succ] <;> decide +kernel
+    · have hi2 : i = 0 ∨ i = 1 := by simp at hi; omega
+      simp only [List.getElem_cons_succ, List.getElem_cons_zero, cxM2, List.mem_singleton] at hl
+      subst hl
+      rcases hi2 with rfl | rfl <;> simp only [List.getElem_cons_zero, List.getElem_cons_succ] <;> decide +kernel
+
+private theorem cxG_problems : linkedProblems {} cxG = some ([1, 2],
+    [⟨["s1"], ⟨["s1"], [[1], [2], [4], [1], [2], [4]]⟩, [10, 20, 40, 10, 20, 40], 1⟩,
+     ⟨["s1"], ⟨["s1"], [[1], [2], [4], [1], [2], [4]]⟩, [20, 40, 80, 20, 40, 80], 2⟩]) := by
+  decide +kernel
+
+/-- **Counterexample to the own-index statement**: the witness group satisfies every hypothesis of
+    `linked_clps_at_truth` (it is at the truth, every stacked matrix has full column rank), the group
+    reports the rows (10), (20) for `d2` — the aligned-axis order, as `linked_clps_at_truth` says — but
+    `d2`'s generating rows in its own order (axis (2, 1)) are (20), (10). -/
+theorem linked_clps_own_order_counterexample :
+    LinkedAtTruth cxG [cxM1, cxM2] [[1, 2], [2, 1]] cxF ∧
+    (∀ axis ps, linkedProblems {} cxG = some (axis, ps) → ∀ p ∈ ps,
+      FullColRank p.reduced.m p.fullLabels.length) ∧
+    ∃ rs, C03.linkedResults {} cxG = some rs ∧ ¬ LinkedClpsOwnOrder [cxM1, cxM2] rs := by
+  refine ⟨cxG_atTruth, ?_, ?_⟩
+  · intro axis ps h p hp
+    rw [cxG_problems] at h
+    simp only [Option.some.injEq, Prod.mk.injEq] at h
+    obtain ⟨_, rfl⟩ := h
+    simp only [List.mem_cons, List.not_mem_nil, or_false] at hp
+    rcases hp with rfl | rfl <;>
+      exact fullColRank_of_cert _ [[1, 0, 0, 0, 0, 0]] 1 (by decide +kernel)
+  · have h : (C03.linkedResults {} cxG).map (fun rs => rs.map (·.clps)) =
+        some [[[10], [20]], [[10], [20]]] := by decide +kernel
+    cases hres : C03.linkedResults {} cxG with
+    | none => simp [hres] at h
+    | some rs =>
+      simp only [hres, Option.map_some, Option.some.injEq] at h
+      refine ⟨rs, rfl, ?_⟩
+      intro hown
+      have h0 := hown 1 (by decide) 0 (by decide)
+      rw [h] at h0
+      revert h0
+      decide +kernel
 
 /-! ### the objective at the truth -/
 
